@@ -859,7 +859,7 @@ theorem C11_legacy_end_to_end (w : World) {hO hD : List AddRec} {clock : Int} {h
         ∀ s ∈ w.senders, ∀ fst, ({ sock := s.id, dest := groupDest s, packet := mcastContent b.keys (additionalsOf b) } : Sent Content) ∈
           blk.2.outs.flatMap (realize w fst)) ∨
      c' ≤ e.time + 1200 ∨
-     (∃ dl, withdrawnInTrace dl tr x)) := by
+     (∃ dl, withdrawnInTrace dl tr x (e.time + (if dl then 1200 else 500)))) := by
   obtain ⟨hu, hm⟩ := C11_query_legacy port hport hqa hp hit x hx
   have hasm : Assembled h e pkts port first qa := ⟨⟨lis, addr, hdec⟩, hf, hqa⟩
   constructor
@@ -872,7 +872,7 @@ theorem C11_legacy_end_to_end (w : World) {hO hD : List AddRec} {clock : Int} {h
   · have later : ∀ (dl : Bool), x ∈ (if dl then qa.mcastLast else qa.mcastAgg).keys →
         (∃ dl, ∃ blk ∈ tr, ∃ t b, blk.1 = .qfire t dl ∧ x ∈ b.keys ∧ e.time ≤ t ∧ t ≤ e.time + (if dl then 1200 else 500) ∧
           ∀ s ∈ w.senders, ∀ fst, ({ sock := s.id, dest := groupDest s, packet := mcastContent b.keys (additionalsOf b) } : Sent Content) ∈
-            blk.2.outs.flatMap (realize w fst)) ∨ c' ≤ e.time + 1200 ∨ (∃ dl, withdrawnInTrace dl tr x) := by
+            blk.2.outs.flatMap (realize w fst)) ∨ c' ≤ e.time + 1200 ∨ (∃ dl, withdrawnInTrace dl tr x (e.time + (if dl then 1200 else 500))) := by
       intro dl hxl
       rcases C12_host_on_wire dl hI hr hasm hxl with ⟨blk, hblk, t, b, h1, h2, h3, h4, h5⟩ | hend | hw
       · left
